@@ -81,6 +81,49 @@ def corpus_cases():
     ]
 
 
+def pinned_cases():
+    """Scenarios every run executes whatever the seed (fixed seeds and strategies):
+    (a) descriptor numbers 0, 1, 2 handed to connections (pdsh started with stdin / stdin+stdout / all of stdio
+        closed), dsh and pdcp personality, with output to relay;
+    (b) timed scenarios: every kind of host that holds its slot longer than its streams say (hangs after the
+        connect, keeps talking, outlives its streams, ignores / is slow to obey SIGTERM, hangs in connect) FIRST and
+        LAST among healthy hosts, N = 3 > fanout = 1 and 2, two timeout settings;
+    (c) ^C then ^Z delivered at EVERY step 0..47 of a two- and a three-target run, at the granularities at which a
+        freshly created worker has not yet looked at its slot."""
+    from vlib import timedcheck as T
+    out = []
+    for low in (1, 3, 7):
+        for pers in ("dsh", "pcp"):
+            for f in (1, 2):
+                hosts = [{"name": "p%d" % i, "out": [[0, ("l%d\n" % i).encode().hex()]]} if pers == "dsh" else
+                         {"name": "p%d" % i} for i in range(3)]
+                out.append({"fanout": f, "hosts": hosts, "seed": 9000 + len(out), "budget": 6000,
+                            "yield": "fan", "inline": 1, "strategy": ["uniform", "starveD", "eagerD"][len(out) % 3],
+                            "opts": {"labels": 1, "sopt": len(out) % 2, "lowfds": low, "pers": pers}})
+    for ct, ut in ((2, 1), (1, 2)):
+        A = T.alphabet(ct, ut)
+        for k in ("hang-after", "chatty", "chatty-odd", "outlives", "stubborn", "lingers", "cmd-far", "cmd-over",
+                  "hang-connect", "refuse", "close-out-early"):
+            for f in (1, 2):
+                for vec in ([k, "ok", "ok2"], ["ok", "ok2", k], [k, k, "ok"]):
+                    c = T.mk_case([A[x] for x in vec], f, ct, ut, len(out) % 2 == 0, 9000 + len(out),
+                                  strategy=["uniform", "starveD", "eagerD"][len(out) % 3])
+                    c["timed"] = True
+                    if not T.excluded(c):
+                        out.append(c)
+    for n, f in ((2, 1), (3, 2)):
+        for k in range(0, 48):
+            for yl in ("fan,time", "all"):
+                out.append({"fanout": f, "hosts": [{"name": "g%d" % i, "out": [[0, ("l%d\n" % i).encode().hex()]]}
+                                                   for i in range(n)],
+                            "seed": 9000 + len(out), "budget": 9000, "yield": yl, "inline": 0,
+                            "strategy": ["uniform", "eagerD", "starveD"][k % 3],
+                            "signals": [[k, 2], [k + 1 + k % 3, 20]], "signals_case": True})
+    for c in out:
+        c["pinned"] = True
+    return out
+
+
 def replay_case(ctx, prop, exe, variant):
     rp = json.load(open(ctx.replay))
     case = (rp.get("case") or {}).get("case") or rp.get("case")
@@ -243,8 +286,15 @@ def explore_all(ctx, prop, exe_san, exe, variant, cov, dist):
         """enough offending runs that no open finding explains => stop exploring, report"""
         return newcount[0] >= 30 or dist["rejects"] >= 200
 
-    # 1. corpus, then exhaustive exploration of tiny configurations (gives the smallest failing schedules)
+    # 1. corpus and pinned scenarios, then exhaustive exploration of tiny configurations (gives the smallest failing
+    #    schedules)
     consume(sched.run_many(exe_san, corpus_cases(), ctx.scratch))
+    pinned = pinned_cases()
+    dist["pinned"] = len(pinned)
+    consume(sched.run_many(exe_san, pinned[::3], ctx.scratch) +
+            sched.run_many(exe, [c for j, c in enumerate(pinned) if j % 3], ctx.scratch))
+    ctx.log("pinned scenarios (descriptors 0-2, slot-holding hosts first / last in the window, ^C^Z at every step): "
+            "%d runs" % len(pinned))
     if ctx.quick():
         configs = [(1, 1, 2), (2, 1, 2), (2, 2, 1), (3, 2, 0)]
     else:
@@ -345,7 +395,7 @@ def explore_all(ctx, prop, exe_san, exe, variant, cov, dist):
         ctx.log("^C^Z injected at random points: %d runs" % len(scases))
 
     # 2. random schedules
-    nrand = 3000 if ctx.quick() else 40000
+    nrand = 2400 if ctx.quick() else 40000
     nmax = 8 if ctx.quick() else 40
     cases = []
     for _ in range(nrand):
